@@ -604,7 +604,8 @@ def apply_edit(copy, copy_labels, edit) -> dict:
             if vi >= len(vals):
                 info["error"] = "no such value"
                 return info
-            setattr(obj, attr, vals[vi])
+            with time_limit():
+                setattr(obj, attr, vals[vi])
             info["status"] = "applied"
         else:
             val = getattr(obj, attr)
@@ -615,6 +616,42 @@ def apply_edit(copy, copy_labels, edit) -> dict:
 
 
 # --------------------------------------------------------------------------- execution
+class CopyTimeout(Exception):
+    """The library call did not return within the limit (an endless loop is a failed copy)."""
+
+
+TIME_LIMIT = float(__import__("os").environ.get("VERIF_C12_TIME_LIMIT", "60"))
+
+
+class time_limit:  # pylint: disable=invalid-name
+    """Raise CopyTimeout inside the block after `seconds`; fires again every half second because
+    an exception raised inside a weak-reference callback or __del__ is swallowed by the interpreter."""
+
+    def __init__(self, seconds=None):
+        self.seconds = TIME_LIMIT if seconds is None else seconds
+        self.armed = False
+        self.old = None
+
+    def _fire(self, *_):
+        if self.armed:
+            raise CopyTimeout(f"no return within {self.seconds:.0f} s")
+
+    def __enter__(self):
+        import signal
+
+        self.old = signal.signal(signal.SIGALRM, self._fire)
+        self.armed = True
+        signal.setitimer(signal.ITIMER_REAL, self.seconds, 0.5)
+
+    def __exit__(self, *exc):
+        import signal
+
+        self.armed = False
+        signal.setitimer(signal.ITIMER_REAL, 0)
+        signal.signal(signal.SIGALRM, self.old)
+        return False
+
+
 def where_raised(err) -> str:
     """module.function of the innermost geoh5py frame of an exception (stable witness)."""
     frames = traceback.extract_tb(err.__traceback__)
@@ -680,7 +717,11 @@ def prepare(history) -> dict:  # noqa: C901  pylint: disable=too-many-branches,t
     obs["phase"] = "copy"
     obs["n_exec"] += 1
     try:
-        copy = src.copy(**kwargs)
+        with time_limit():
+            copy = src.copy(**kwargs)
+    except CopyTimeout as err:
+        obs["copy_error"] = {"type": "Timeout", "where": "copy-did-not-return", "msg": str(err)}
+        copy = None
     except Exception as err:  # pylint: disable=broad-except
         obs["copy_error"] = {"type": type(err).__name__, "where": where_raised(err), "msg": str(err)[:200]}
         copy = None
